@@ -83,6 +83,11 @@ fn step<T: Elt>(m: &mut Matrix<T>, op: &str, a: &mut Args, out: &mut Out) {
             check_same(m, &s1, "*"); check_same(&b, &s2, "*");
             let r2 = m.clone() * b.clone(); if !same(&r, &r2) { panic!("harness: owned/borrowed forms differ (*)"); } out.m(&r); }
         "mul_l" => { let b = a.m::<T>(); let r = &b * &*m; out.m(&r); }
+        // both operands the SAME object (round four): &m + &m, &m - &m, &m * &m
+        "add_self" => { let snap = m.clone(); let r = &*m + &*m; check_same(m, &snap, "+ (same object)"); out.m(&r); }
+        "sub_self" => { let snap = m.clone(); let r = &*m - &*m; check_same(m, &snap, "- (same object)"); out.m(&r); }
+        "mul_self" => { let snap = m.clone(); let r = &*m * &*m; check_same(m, &snap, "* (same object)");
+            let r2 = &*m * &snap; if !same(&r, &r2) { panic!("harness: owned/borrowed forms differ (m * m with one object vs two)"); } out.m(&r); }
         "eye" => { let n = a.usize(); out.m(&Matrix::<T>::eye(n)); }
         "numel" => { out.usize(m.numel()); }
         "clone_mut" => { // clone independence: mutate the clone, original must not move; then mutate original
